@@ -101,6 +101,19 @@ func Jobs(thorough bool) []core.JobsScenario {
 			}
 		}
 	}
+	// after a restart of mrp: jobs that are already running on the cluster are
+	// re-attached (as many as fit the limit) before new jobs are submitted
+	for _, limit := range []int{1, 2} {
+		for _, k := range []string{"job", "try"} {
+			out = append(out,
+				core.JobsScenario{Limit: limit, Jobs: 3, Reattach: []int{0}, Threads: [][]core.JobsOp{{{Kind: "finish", J: 0}}, {{Kind: k, J: 1}}, {{Kind: "job", J: 2}}}},
+				core.JobsScenario{Limit: limit, Jobs: 3, Reattach: []int{0}, Threads: [][]core.JobsOp{{{Kind: "finish", J: 0}}, {{Kind: k, J: 1}}, {{Kind: "find"}}}})
+		}
+		if limit == 2 {
+			out = append(out,
+				core.JobsScenario{Limit: limit, Jobs: 3, Reattach: []int{0, 1}, Threads: [][]core.JobsOp{{{Kind: "finish", J: 0}}, {{Kind: "finish", J: 1}}, {{Kind: "job", J: 2}}}})
+		}
+	}
 	if thorough {
 		// four submitters
 		for _, limit := range []int{1, 2, 3} {
